@@ -24,6 +24,7 @@ type Env struct {
 	header *ssa.BasicBlock
 	bound  map[string]bool
 	specDepth int
+	qbind  []string // SMT binder declarations of the enclosing quantifiers
 }
 
 func (cx *Ctx) typesPkg(path string) *types.Package {
@@ -51,6 +52,11 @@ func (e *Env) resolveType(s string) types.Type {
 	s = strings.TrimSpace(s)
 	if s == "mathint" {
 		return types.Typ[types.Int]
+	}
+	if o := types.Universe.Lookup(s); o != nil {
+		if tn, ok := o.(*types.TypeName); ok {
+			return tn.Type()
+		}
 	}
 	if e.pkg == nil {
 		return nil
@@ -384,6 +390,52 @@ func (e *Env) qualified(pkgName, name string) (Val, bool) {
 	return Val{}, false
 }
 
+// closureFact: a reference read from an allocated object (or from a map entry) is itself an allocated reference.
+// Emitted as a standalone assumption for every reference-typed read in a contract expression.
+func (e *Env) closureFact(v Val, guard string) {
+	u := e.u
+	if u.dry > 0 || v.Ty == nil || v.T == "" {
+		return
+	}
+	var t string
+	switch refKind(v.Ty) {
+	case "ref":
+		t = v.T
+	case "slice":
+		t = app("sl_base", v.T)
+	default:
+		return
+	}
+	alloc := u.heapCur(e.cur, "$alloc")
+	body := implies(guard, app("<=", t, alloc))
+	key := body
+	if u.closureSeen[key] {
+		return
+	}
+	u.closureSeen[key] = true
+	// bind only the quantified variables the fact mentions; the pattern must mention all of them
+	var binds []string
+	patOK := true
+	for _, b := range e.qbind {
+		name := strings.TrimPrefix(strings.SplitN(b, " ", 2)[0], "(")
+		if strings.Contains(body, name) {
+			binds = append(binds, b)
+			if !strings.Contains(t, name) {
+				patOK = false
+			}
+		}
+	}
+	if len(binds) == 0 {
+		u.assume(body)
+		return
+	}
+	if patOK {
+		u.assume(fmt.Sprintf("(forall (%s) (! %s :pattern (%s)))", strings.Join(binds, " "), body, t))
+	} else {
+		u.assume(fmt.Sprintf("(forall (%s) %s)", strings.Join(binds, " "), body))
+	}
+}
+
 // findField returns the index path to a (possibly promoted) field.
 func findField(t types.Type, name string, depth int) ([]int, bool) {
 	t = types.Unalias(t)
@@ -426,7 +478,11 @@ func (e *Env) field(v Val, name string) Val {
 			stT := p.Elem()
 			loc := u.fieldLoc(cur, stT, i)
 			ft := stT.Underlying().(*types.Struct).Field(i).Type()
+			prev := cur
 			cur = Val{T: u.readLoc(e.cur, loc), S: u.enc.sortOf(ft), Ty: ft}
+			if prev.Loc == nil && prev.T != "" {
+				e.closureFact(cur, app("<=", prev.T, u.heapCur(e.cur, "$alloc")))
+			}
 		} else {
 			s := t.Underlying().(*types.Struct)
 			u.enc.sortOf(t)
@@ -484,10 +540,14 @@ func (e *Env) trIndex(n *EIndex) Val {
 	switch t := x.Ty.Underlying().(type) {
 	case *types.Slice:
 		h := u.arrHeap(t.Elem())
-		return Val{T: sel(sel(u.heapCur(e.cur, h), app("sl_base", x.T)), app("+", app("sl_off", x.T), i.T)), S: u.enc.sortOf(t.Elem()), Ty: t.Elem()}
+		r := Val{T: sel(sel(u.heapCur(e.cur, h), app("sl_base", x.T)), app("+", app("sl_off", x.T), i.T)), S: u.enc.sortOf(t.Elem()), Ty: t.Elem()}
+		e.closureFact(r, and(app("<=", app("sl_base", x.T), u.heapCur(e.cur, "$alloc")), app("<=", "0", i.T), app("<", i.T, app("sl_len", x.T))))
+		return r
 	case *types.Map:
-		_, val, _, _ := u.mapHeaps(t)
-		return Val{T: sel(sel(u.heapCur(e.cur, val), x.T), i.T), S: u.enc.sortOf(t.Elem()), Ty: t.Elem()}
+		dom, val, _, _ := u.mapHeaps(t)
+		r := Val{T: sel(sel(u.heapCur(e.cur, val), x.T), i.T), S: u.enc.sortOf(t.Elem()), Ty: t.Elem()}
+		e.closureFact(r, and(app("<=", x.T, u.heapCur(e.cur, "$alloc")), sel(sel(u.heapCur(e.cur, dom), x.T), i.T)))
+		return r
 	case *types.Array:
 		return Val{T: sel(x.T, i.T), S: u.enc.sortOf(t.Elem()), Ty: t.Elem()}
 	}
@@ -627,6 +687,7 @@ func (e *Env) trQuant(n *EQuant) Val {
 		u.enc.fresh++
 		nm = q(nm)
 		binders = append(binders, fmt.Sprintf("(%s %s)", nm, srt))
+		sub.qbind = append(append([]string{}, sub.qbind...), fmt.Sprintf("(%s %s)", nm, srt))
 		sub.vars[v.Name] = Val{T: nm, S: srt, Ty: ty}
 		if ty != nil {
 			switch ut := ty.Underlying().(type) {
@@ -721,6 +782,13 @@ func (e *Env) trCall(n *ECall) Val {
 			e.fail("str() of non-slice")
 		}
 		return Val{T: u.strOfBytes(e.cur, a.T, st.Elem()), S: "Str", Ty: types.Typ[types.String]}
+	case "deref":
+		a := e.tr(n.Args[0])
+		pt, ok := a.Ty.Underlying().(*types.Pointer)
+		if !ok {
+			e.fail("deref of non-pointer")
+		}
+		return u.load(e.cur, a, pt.Elem())
 	case "setadd":
 		as := args()
 		return Val{T: sto(as[0].T, as[1].T, "true"), S: as[0].S}
@@ -758,6 +826,19 @@ func (e *Env) trCall(n *ECall) Val {
 			e.fail("ret(%q): no such call seen yet", s.V)
 		}
 		return Val{T: u.heapCur(e.cur, g), S: srt}
+	case "count", "counttrue0", "counttrue1":
+		s, ok := n.Args[0].(*EStr)
+		if !ok {
+			e.fail("count(\"pattern\")")
+		}
+		g := "$count:" + s.V
+		if n.Fn == "counttrue0" {
+			g = "$cnttrue:" + s.V + ":0"
+		} else if n.Fn == "counttrue1" {
+			g = "$cnttrue:" + s.V + ":1"
+		}
+		u.regHeap(g, "Int")
+		return Val{T: u.heapCur(e.cur, g), S: "Int", Ty: intT}
 	case "alloc":
 		return Val{T: u.heapCur(e.cur, "$alloc"), S: "Int", Ty: intT}
 	case "clock":
@@ -781,7 +862,7 @@ func (e *Env) trCall(n *ECall) Val {
 		return Val{T: and(app("<=", "0", t), app("<=", t, u.heapCur(e.cur, "$alloc"))), S: "Bool", Ty: boolT}
 	case "tsT": // instant of a *timestamppb.Timestamp
 		a := e.tr(n.Args[0])
-		return Val{T: u.tsInstant(e.cur, a.T), S: "Int", Ty: intT}
+		return Val{T: u.tsInstant(e.cur, a.T), S: "Int", Ty: u.cx.lookupType("time", "Time")}
 	case "typeis": // typeis(x, T): dynamic type of interface value
 		a := e.tr(n.Args[0])
 		tn := n.Args[1].String()
@@ -819,7 +900,7 @@ func (e *Env) trCall(n *ECall) Val {
 		if e.specDepth > 12 {
 			e.fail("spec expansion too deep at %s (recursive spec functions must be declared with uf + axiom)", n.Fn)
 		}
-		sub := &Env{u: u, vars: map[string]Val{}, cur: e.cur, old: e.old, pkg: u.cx.typesPkg(sf.PkgPath), specDepth: e.specDepth + 1}
+		sub := &Env{u: u, vars: map[string]Val{}, cur: e.cur, old: e.old, pkg: u.cx.typesPkg(sf.PkgPath), specDepth: e.specDepth + 1, qbind: e.qbind}
 		for i, p := range sf.Params {
 			a := e.tr(n.Args[i])
 			srt, ty := sub.specSort(p.Type)
@@ -955,6 +1036,8 @@ func (e *Env) trMethod(n *EMethod) Val {
 			return Val{T: app("-", x.T, as[0].T), S: "Int", Ty: as[0].Ty}
 		case "UTC":
 			return x
+		case "Unix":
+			return Val{T: "(div (- " + x.T + " " + unixEpochNs + ") 1000000000)", S: "Int", Ty: types.Typ[types.Int64]}
 		}
 	}
 	if x.Ty != nil && isNamedPtr(x.Ty, "google.golang.org/protobuf/types/known/timestamppb", "Timestamp") && n.Name == "AsTime" {
